@@ -69,6 +69,19 @@ def Dest.write (d : Dest) (buf : List UInt8) : Dest :=
     let off := if d.flags.append then d.content.length else d.offset
     { d with content := overwriteAt d.content off buf, offset := off + buf.length }
 
+/-- SPECIFICATION of delivery: what the destination holds after the bytes `W` have been written to it by plain
+    `write` calls (pipe: appended to the stream; O_APPEND: appended to the file; otherwise placed at the offset). -/
+def expectedContent (d : Dest) (W : List UInt8) : List UInt8 :=
+  match d.kind with
+  | .other => d.content ++ W
+  | .regular =>
+    if W.isEmpty then d.content
+    else overwriteAt d.content (if d.flags.append then d.content.length else d.offset) W
+
+/-- The file offset afterwards (regular files). -/
+def expectedOffset (d : Dest) (W : List UInt8) : Nat :=
+  if W.isEmpty then d.offset else (if d.flags.append then d.content.length else d.offset) + W.length
+
 /-- `lseek(fd, n, SEEK_CUR)`; `none` = `ESPIPE`. -/
 def Dest.seekCur (d : Dest) (n : Nat) : Option Dest :=
   match d.kind with
